@@ -5,6 +5,7 @@ import ast
 import re
 
 from ..ccfg import get_ccfg
+from ..cexpr import callee
 from ..cfacts import CREL, get_cfacts
 from ..core import AnalysisError, rule
 from ..csym import feasible_paths
@@ -355,20 +356,63 @@ def roles(ctx, res):
         # ... and the next object of the chain is read from that same owner
         bad_n = None
         n_next = 0
+        # in-file helpers that do the lookup for (trait parameter, object
+        # parameter): `lookup_delegate_object(trait, holder)`
+        helpers = {}
+        for hname in facts.defined_functions():
+            if hname == fname:
+                continue
+            hps = [q.name for q in facts.params(hname)]
+            if len(hps) < 2 or len(hps) > 3 or not any(
+                    x.kind == "CallExpr" and callee(x) in (
+                        "PyDict_GetItem", "has_traits_getattro")
+                    for x in facts.func(hname).walk()):
+                continue
+            hp, _f, _g = paths_of(ctx, hname)
+            roles = set()
+            for p in hp:
+                for it in p.trace:
+                    if it[0] == "call" and it[1] in (
+                            "PyDict_GetItem", "has_traits_getattro") \
+                            and len(it[2]) >= 2:
+                        sx = it[2][0][:-len("->obj_dict")] \
+                            if it[2][0].endswith("->obj_dict") else it[2][0]
+                        if sx not in hps:
+                            continue
+                        if it[2][1].endswith("->delegate_name"):
+                            tt = it[2][1][:-len("->delegate_name")]
+                            if tt in hps:
+                                roles.add(("T", hps.index(tt), hps.index(sx)))
+                        elif it[2][1] in hps:
+                            roles.add(("N", hps.index(it[2][1]),
+                                       hps.index(sx)))
+            if len(roles) == 1:
+                helpers[hname] = next(iter(roles))
         for p in ps:
             for it in p.trace:
-                if it[0] != "call" or it[1] not in ("PyDict_GetItem",
-                                                    "has_traits_getattro"):
+                if it[0] != "call":
                     continue
                 a = it[2]
-                if len(a) < 2 or not a[1].endswith("->delegate_name"):
+                if it[1] in helpers:
+                    kind_, iT, iX = helpers[it[1]]
+                    if max(iT, iX) >= len(a):
+                        continue
+                    ttext, src = a[iT], a[iX]
+                    if kind_ == "N":
+                        if not ttext.endswith("->delegate_name"):
+                            continue
+                        ttext = ttext[:-len("->delegate_name")]
+                elif it[1] in ("PyDict_GetItem", "has_traits_getattro"):
+                    if len(a) < 2 or not a[1].endswith("->delegate_name"):
+                        continue
+                    ttext = a[1][:-len("->delegate_name")]
+                    src = a[0][:-len("->obj_dict")] \
+                        if a[0].endswith("->obj_dict") else a[0]
+                else:
                     continue
-                ttext = a[1][:-len("->delegate_name")]
                 holder = _trait_holder(ttext, prm, objp_)
                 if holder is None:
                     continue
-                src = a[0][:-len("->obj_dict")] \
-                    if a[0].endswith("->obj_dict") else a[0]
                 n_next += 1
                 if src != holder and bad_n is None:
                     bad_n = (it, src, holder, p)
